@@ -527,7 +527,7 @@ Notation TG := (tmapP gr ga gb gs gl).
 Notation AF := (amapP fr fa fb fs fl).
 Notation AG := (amapP gr ga gb gs gl).
 
-Lemma in_sched_blocks : forall (r : list (block V S L)) ep first b pr a,
+Lemma in_sched_blocks : forall (r : list (block V S L)) (ep first : bool) (b : block V S L) (pr : bool) (a : act V S L),
   In a (sched_block b pr) ->
   (exists pre post : list (block V S L), r = pre ++ b :: post /\
      pr = (if first then (match pre with [] => ep | _ :: _ => true end) else true)) ->
@@ -537,43 +537,48 @@ Proof.
   - destruct pre; discriminate.
   - rewrite sched_blocks_cons. apply in_or_app. destruct pre as [|x pre]; cbn in E; inversion E; subst.
     + left. exact Ha.
-    + right. apply (IH ep false b true a Ha). exists pre, post. split; [reflexivity|]. destruct first; reflexivity.
+    + right. apply (IH ep false b true a).
+      * destruct first; exact Ha.
+      * exists pre, post. split; reflexivity.
 Qed.
 
-Lemma tmapP_ext : forall o : op V S L, (forall a, In a (sched o) -> AF a = AG a) -> TF o = TG o.
+Definition primary (a : act V S L) : Prop :=
+  match a with Ares _ | Aarg _ | Asucc _ | Alabel _ _ | Abarg _ => True | _ => False end.
+
+Lemma tmapP_ext : forall o : op V S L, (forall a, In a (sched o) -> primary a -> AF a = AG a) -> TF o = TG o.
 Proof.
-  apply (op_ind2 (fun o => (forall a, In a (sched o) -> AF a = AG a) -> TF o = TG o)
-                 (fun b => forall pr, (forall a, In a (sched_block b pr) -> AF a = AG a) ->
+  apply (op_ind2 (fun o => (forall a, In a (sched o) -> primary a -> AF a = AG a) -> TF o = TG o)
+                 (fun b => forall pr, (forall a, In a (sched_block b pr) -> primary a -> AF a = AG a) ->
                                       tmapP_block fr fa fb fs fl b pr = tmapP_block gr ga gb gs gl b pr)).
   - intros nm res args succs props regs attrs it ot IH H.
     rewrite !tmapP_eq.
     assert (H1 : map fr res = map gr res).
     { apply map_ext_in. intros v Hv. assert (X : AF (Ares v) = AG (Ares v)).
-      { apply H. rewrite sched_eq. rewrite !in_app_iff. left. apply in_map. exact Hv. }
+      { apply H; [|exact I]. rewrite sched_eq. rewrite !in_app_iff. left. apply in_map. exact Hv. }
       cbn in X. inversion X. reflexivity. }
     assert (H2 : map fa args = map ga args).
     { apply map_ext_in. intros v Hv. assert (X : AF (Aarg v) = AG (Aarg v)).
-      { apply H. rewrite sched_eq. rewrite !in_app_iff. right. right. left. apply in_map. exact Hv. }
+      { apply H; [|exact I]. rewrite sched_eq. rewrite !in_app_iff. right. right. left. apply in_map. exact Hv. }
       cbn in X. inversion X. reflexivity. }
     assert (H3 : map fs succs = map gs succs).
     { apply map_ext_in. intros v Hv. assert (X : AF (Asucc v) = AG (Asucc v)).
-      { apply H. rewrite sched_eq. rewrite !in_app_iff. right. right. right. left. apply in_map. exact Hv. }
+      { apply H; [|exact I]. rewrite sched_eq. rewrite !in_app_iff. right. right. right. left. apply in_map. exact Hv. }
       cbn in X. inversion X. reflexivity. }
     rewrite H1, H2, H3. f_equal.
-    assert (HR : forall a, In a (flat_map sched_region regs) -> AF a = AG a).
-    { intros a Ha. apply H. rewrite sched_eq. rewrite !in_app_iff. tauto. }
+    assert (HR : forall a, In a (flat_map sched_region regs) -> primary a -> AF a = AG a).
+    { intros a Ha Pa. apply H; [|exact Pa]. rewrite sched_eq. rewrite !in_app_iff. tauto. }
     clear H H1 H2 H3. induction IH as [|r rs Hr _ IHrs]; [reflexivity|]. cbn [map]. f_equal.
-    + assert (Hreg : forall a, In a (sched_blocks (ep_of r) r true) -> AF a = AG a).
-      { intros a Ha. apply HR. cbn [flat_map]. apply in_or_app. left. unfold sched_region. right. apply in_or_app. now left. }
+    + assert (Hreg : forall a, In a (sched_blocks (ep_of r) r true) -> primary a -> AF a = AG a).
+      { intros a Ha Pa. apply HR; [|exact Pa]. cbn [flat_map]. apply in_or_app. left. unfold sched_region. right. apply in_or_app. now left. }
       assert (G : forall pre suf first, r = pre ++ suf -> (first = true -> pre = []) -> (first = false -> pre <> []) ->
                 tmapP_blocks fr fa fb fs fl suf first = tmapP_blocks gr ga gb gs gl suf first).
       { intros pre suf. revert pre.
-        assert (Hsuf : forall suf, Forall (fun b => forall pr, (forall a, In a (sched_block b pr) -> AF a = AG a) ->
+        assert (Hsuf : forall suf, Forall (fun b => forall pr, (forall a, In a (sched_block b pr) -> primary a -> AF a = AG a) ->
                    tmapP_block fr fa fb fs fl b pr = tmapP_block gr ga gb gs gl b pr) suf ->
                  forall pre first, r = pre ++ suf -> (first = true -> pre = []) -> (first = false -> pre <> []) ->
                  tmapP_blocks fr fa fb fs fl suf first = tmapP_blocks gr ga gb gs gl suf first).
         { induction 1 as [|b suf' Hb _ IHs]; intros pre first E F1 F2; [reflexivity|]. cbn [tmapP_blocks]. f_equal.
-          - apply Hb. intros a Ha. apply Hreg. apply (in_sched_blocks r (ep_of r) true b _ a Ha).
+          - apply Hb. intros a Ha Pa. apply Hreg; [|exact Pa]. apply (in_sched_blocks r (ep_of r) true b _ a Ha).
             exists pre, suf'. split; [exact E|]. destruct first.
             + rewrite (F1 eq_refl) in *. cbn in E. subst r. reflexivity.
             + destruct pre; [exfalso; apply (F2 eq_refl); reflexivity|reflexivity].
@@ -584,21 +589,21 @@ Proof.
         intros pre first E F1 F2. apply (Hsuf suf) with (pre := pre); try assumption.
         subst r. apply Forall_app in Hr. tauto. }
       apply (G [] r true); [reflexivity|reflexivity|discriminate].
-    + apply IHrs. intros a Ha. apply HR. cbn [flat_map]. apply in_or_app. now right.
+    + apply IHrs. intros a Ha Pa. apply HR; [|exact Pa]. cbn [flat_map]. apply in_or_app. now right.
   - intros lab bargs ops IH pr H. cbn [tmapP_block].
     assert (H1 : fl pr lab = gl pr lab).
-    { assert (X : AF (Alabel lab pr) = AG (Alabel lab pr)) by (apply H; rewrite sched_block_eq; now left).
+    { assert (X : AF (Alabel lab pr) = AG (Alabel lab pr)) by (apply H; [rewrite sched_block_eq; now left|exact I]).
       cbn in X. inversion X. reflexivity. }
     assert (H2 : map (fun a => (fb (fst a), snd a)) bargs = map (fun a => (gb (fst a), snd a)) bargs).
     { apply map_ext_in. intros v Hv. assert (X : AF (Abarg (fst v)) = AG (Abarg (fst v))).
-      { apply H. rewrite sched_block_eq. right. apply in_or_app. left. apply (in_map (fun a => Abarg (fst a))) in Hv. exact Hv. }
+      { apply H; [|exact I]. rewrite sched_block_eq. right. apply in_or_app. left. apply (in_map (fun a : V * atom => @Abarg V S L (fst a))) in Hv. exact Hv. }
       cbn in X. inversion X. congruence. }
     rewrite H1, H2. f_equal.
-    assert (HO : forall a, In a (flat_map sched ops) -> AF a = AG a).
-    { intros a Ha. apply H. rewrite sched_block_eq. right. apply in_or_app. now right. }
+    assert (HO : forall a, In a (flat_map sched ops) -> primary a -> AF a = AG a).
+    { intros a Ha Pa. apply H; [|exact Pa]. rewrite sched_block_eq. right. apply in_or_app. now right. }
     clear H H1 H2. induction IH as [|o os Ho _ IHos]; [reflexivity|]. cbn [map]. f_equal.
-    + apply Ho. intros a Ha. apply HO. cbn. apply in_or_app. now left.
-    + apply IHos. intros a Ha. apply HO. cbn. apply in_or_app. now right.
+    + apply Ho. intros a Ha Pa. apply HO; [|exact Pa]. cbn. apply in_or_app. now left.
+    + apply IHos. intros a Ha Pa. apply HO; [|exact Pa]. cbn. apply in_or_app. now right.
 Qed.
 End Ext.
 
@@ -638,3 +643,455 @@ Proof.
   - intros lab bargs ops IH pr. cbn [tmap_block tmapP_block]. f_equal.
     induction IH as [|o os Ho _ IHos]; [reflexivity|]. cbn [map]. f_equal; assumption.
 Qed.
+
+(* ---------- label facts of a run ---------- *)
+Section LabFacts.
+Variable c : cfg.
+
+Definition lab_fact (pf : pst) (a : sact) : Prop :=
+  match a with
+  | Alabel (b, h) pr => pr = true -> blk_hint c (bname_of pf b) = eff_bhint c true h
+  | Arbegin ls ep => forall j b h, nth_error ls j = Some (b, h) -> lab_shape c pf j ep b h
+  | _ => True
+  end.
+
+Lemma use_hint_printed : forall j ep, (if j =? 0 then ep else true) = true -> use_hint_at c j ep = true.
+Proof.
+  intros j ep H. unfold use_hint_at. destruct (j =? 0); [subst ep|]; cbn; rewrite ?andb_false_r; reflexivity.
+Qed.
+
+Lemma shape_blk_hint : forall p j ep b h, lab_shape c p j ep b h -> use_hint_at c j ep = true ->
+  blk_hint c (bname_of p b) = eff_bhint c true h.
+Proof.
+  intros p j ep b h S U. unfold lab_shape in S. rewrite U in S.
+  destruct (eff_bhint c true h) as [hs|].
+  - destruct S as [G [D [k E]]]. rewrite E. apply blk_hint_render; assumption.
+  - rewrite S. apply blk_hint_bb.
+Qed.
+
+Lemma lab_facts : forall l p g gf,
+  hints_ok c l -> BInvP c p g -> ws_run c l g = Some gf -> Forall (lab_fact (runP c l p)) l.
+Proof.
+  induction l as [|a l IH]; intros p g gf Hh BI H; cbn in H; [constructor|].
+  destruct (ws_step c a g) as [g2|] eqn:E; [|discriminate]. inversion Hh as [|? ? Ha Hl]; subst.
+  pose proof (stepP_BInvP c a p g g2 Ha BI E) as BI2.
+  rewrite runP_cons. constructor; [|eapply IH; eauto].
+  assert (Stab : forall b, lookupZ b (p_blks (stepP c a p)) <> None ->
+            bname_of (runP c l (stepP c a p)) b = bname_of (stepP c a p) b).
+  { intros b Hb. apply bname_stable; [|exact Hb]. intros w Hw. apply runP_stable. exact Hw. }
+  destruct a as [[v h]|[v h]| |[v h]|b|ls ep|[b h] pr|[v h]| | |[v h]|[v h]]; cbn [lab_fact]; try exact I.
+  - (* region begin *)
+    cbn in E. destruct (_ && _); [|discriminate]. inversion E; subst g2; clear E.
+    destruct BI2 as [B1 B2 B4 B3]. destruct (B2 (ls, ep, ls)) as [_ [X2 [_ X4]]]; [cbn; now left|].
+    intros j b h Hn. apply (lab_shape_same c (stepP c (Arbegin ls ep) p)); [|apply X4; exact Hn].
+    apply Stab. apply X2. unfold ids_of. cbn [fst]. apply nth_error_In in Hn. apply (in_map fst) in Hn. exact Hn.
+  - (* label *)
+    intro Hpr. cbn in E.
+    destruct (g_bopen g) as [|[[ls ep] [|x rem]] bs] eqn:Eb; try discriminate.
+    destruct (Z.eqb b (fst x) && hint_eqb h (snd x) && _) eqn:Ec; [|discriminate]. inversion E; subst g2; clear E.
+    apply andb_true_iff in Ec. destruct Ec as [Ec Ec3]. apply andb_true_iff in Ec. destruct Ec as [Ec1 Ec2].
+    apply Z.eqb_eq in Ec1. apply eqb_prop in Ec3.
+    assert (Eh : h = snd x).
+    { destruct h as [hs|], (snd x) as [hx|]; cbn in Ec2; try discriminate; [apply str_eqb_eq in Ec2; congruence|reflexivity]. }
+    destruct BI as [B1 B2 B4 B3]. destruct (B2 (ls, ep, x :: rem)) as [_ [X2 [[pre X3] X4]]]; [rewrite Eb; now left|].
+    cbn [fst snd] in X3, X4.
+    assert (Hn : nth_error ls (length pre) = Some (b, h)).
+    { rewrite X3. rewrite nth_error_app2 by lia. rewrite Nat.sub_diag. cbn. destruct x; cbn in *; congruence. }
+    assert (Hj : (if length pre =? 0 then ep else true) = true).
+    { rewrite <- Hpr. rewrite Ec3. rewrite X3. rewrite app_length. cbn.
+      destruct pre as [|y pre']; cbn.
+      - rewrite Nat.add_comm. cbn. rewrite Nat.eqb_refl. reflexivity.
+      - destruct (Nat.eqb_spec (length rem + 1) (S (length pre' + S (length rem)))); [lia|reflexivity]. }
+    assert (Hb : lookupZ b (p_blks p) <> None).
+    { apply X2. unfold ids_of. cbn [fst]. apply nth_error_In in Hn. apply (in_map fst) in Hn. exact Hn. }
+    assert (Ep : stepP c (Alabel (b, h) pr) p = p).
+    { cbn [stepP]. destruct pr; [|reflexivity]. unfold pb_if_new. destruct (lookupZ b (p_blks p)); [reflexivity|congruence]. }
+    rewrite Ep in *.
+    rewrite (Stab b Hb).
+    apply (shape_blk_hint p (length pre) ep); [apply X4; exact Hn|apply use_hint_printed; exact Hj].
+Qed.
+End LabFacts.
+
+(* ---------- the hints seen from the uses ---------- *)
+Section HintTable.
+Variable c : cfg.
+Variables nm bnm : Z -> str.
+Variables r rb : list (Z * Z).
+Variable D : Z -> Prop.
+Hypothesis Hinj : forall x y, D x -> D y -> rho r x = rho r y -> x = y.
+
+Definition defs_of (l : list sact) : list Z :=
+  flat_map (fun a => match a with Abarg (w, _) | Ares_post (w, _) => [w] | _ => [] end) l.
+Definition defs_in (l : list sact) : Prop :=
+  Forall (fun a => match a with Abarg (w, _) | Ares_post (w, _) => D w | _ => True end) l.
+
+Lemma hint_table_app : forall a b, hint_table (a ++ b) = hint_table a ++ hint_table b.
+Proof.
+  induction a as [|x a IH]; intro b; cbn; [reflexivity|].
+  destruct x as [i [h|]|i h]; cbn; rewrite IH; reflexivity.
+Qed.
+
+Lemma table_def : forall l v hs, defs_in l -> D v -> In v (defs_of l) -> val_hint c (nm v) = Some hs ->
+  lookupZ (rho r v) (hint_table (qouts c nm bnm r rb l)) = Some (Some hs).
+Proof.
+  induction l as [|a l IH]; intros v hs Hd Dv Hin Hv; [contradiction|].
+  inversion Hd as [|? ? Ha Hl]; subst. unfold qouts. cbn [flat_map]. rewrite hint_table_app.
+  assert (Skip : forall i, hint_table [OV i None] = [] /\ forall h, hint_table [OB i h] = []) by (intro i; split; reflexivity).
+  assert (Def : forall w, D w -> (w = v \/ In v (defs_of l)) ->
+            lookupZ (rho r v) (hint_table [OV (rho r w) (val_hint c (nm w))] ++ hint_table (flat_map (qout c nm bnm r rb) l)) = Some (Some hs)).
+  { intros w Dw Hw. destruct (Z.eq_dec w v) as [E|E].
+    - subst w. rewrite Hv. cbn. rewrite Z.eqb_refl. reflexivity.
+    - destruct Hw as [Hw|Hw]; [contradiction|].
+      destruct (val_hint c (nm w)) as [hw|]; cbn.
+      + destruct (Z.eqb_spec (rho r v) (rho r w)) as [X|X]; [apply Hinj in X; try assumption; congruence|].
+        apply IH; assumption.
+      + apply IH; assumption. }
+  destruct a as [[w h]|[w h]| |[w h]|b|ls ep|[b h] pr|[w h]| | |[w h]|[w h]]; cbn [qout defs_of flat_map app] in *;
+    try (apply IH; assumption).
+  - apply Def; [exact Ha|]. destruct Hin as [Hin|Hin]; [left; auto|right; exact Hin].
+  - apply Def; [exact Ha|]. destruct Hin as [Hin|Hin]; [left; auto|right; exact Hin].
+Qed.
+
+Lemma table_none : forall l v, defs_in l -> D v -> val_hint c (nm v) = None ->
+  lookupZ (rho r v) (hint_table (qouts c nm bnm r rb l)) = None.
+Proof.
+  induction l as [|a l IH]; intros v Hd Dv Hv; [reflexivity|].
+  inversion Hd as [|? ? Ha Hl]; subst. unfold qouts. cbn [flat_map]. rewrite hint_table_app.
+  assert (Def : forall w, D w ->
+            lookupZ (rho r v) (hint_table [OV (rho r w) (val_hint c (nm w))] ++ hint_table (flat_map (qout c nm bnm r rb) l)) = None).
+  { intros w Dw. destruct (val_hint c (nm w)) as [hw|] eqn:Ew; cbn.
+    - destruct (Z.eqb_spec (rho r v) (rho r w)) as [X|X]; [apply Hinj in X; try assumption; subst; congruence|].
+      apply IH; assumption.
+    - apply IH; assumption. }
+  destruct a as [[w h]|[w h]| |[w h]|b|ls ep|[b h] pr|[w h]| | |[w h]|[w h]]; cbn [qout app] in *;
+    try (apply IH; assumption).
+  - apply Def. exact Ha.
+  - apply Def. exact Ha.
+Qed.
+End HintTable.
+
+(* ---------- every defined value has a defining act ---------- *)
+Lemma defs_cover : forall c l g gf, ws_run c l g = Some gf ->
+  forall v, In v (concat (g_open gf)) \/ In v (g_closed gf) ->
+  In v (concat (g_open g)) \/ In v (g_closed g) \/ In v (defs_of l).
+Proof.
+  induction l as [|a l IH]; intros g gf H v Hv; cbn in H.
+  - inversion H; subst. tauto.
+  - destruct (ws_step c a g) as [g2|] eqn:E; [|discriminate].
+    specialize (IH g2 gf H v Hv).
+    assert (Same : g_open g2 = g_open g -> g_closed g2 = g_closed g ->
+              In v (concat (g_open g)) \/ In v (g_closed g) \/ In v (defs_of (a :: l))).
+    { intros E1 E2. rewrite E1, E2 in IH. unfold defs_of in *. cbn [flat_map]. rewrite in_app_iff. tauto. }
+    assert (Def : forall w g' , g_open g' = g_open g -> g_closed g' = g_closed g -> g_define w g' = Some g2 ->
+              (match a with Abarg (w', _) | Ares_post (w', _) => w' = w | _ => False end) ->
+              In v (concat (g_open g)) \/ In v (g_closed g) \/ In v (defs_of (a :: l))).
+    { intros w g' E1 E2 Hd Ha. unfold g_define in Hd. destruct (lookupZ w (g_hints g')); [|discriminate].
+      destruct (_ || _); [discriminate|]. destruct (g_open g') as [|o1 os1] eqn:Eo; [discriminate|]. inversion Hd; subst g2; clear Hd.
+      cbn [g_open g_closed concat] in IH. rewrite <- E1. cbn [concat]. rewrite <- E2.
+      unfold defs_of in *. cbn [flat_map]. rewrite !in_app_iff. rewrite in_app_iff in IH. cbn [In] in IH.
+      assert (Hw : In w (match a with Abarg (w0, _) | Ares_post (w0, _) => [w0] | _ => [] end)).
+      { destruct a as [[v' h]|[v' h]| |[v' h]|b|ls ep|[b h] pr|[v' h]| | |[v' h]|[v' h]]; try contradiction; subst; now left. }
+      destruct IH as [[[IH|IH]|IH]|[IH|IH]]; subst; tauto. }
+    destruct a as [[w h]|[w h]| |[w h]|b|ls ep|[b h] pr|[w h]| | |[w h]|[w h]]; cbn in E.
+    + destruct (g_mention_hints _ _ _ _ E) as [_ [A1 [_ [A3 _]]]]. apply Same; assumption.
+    + destruct (fx_iso_operands c); [destruct (g_mention_hints _ _ _ _ E) as [_ [A1 [_ [A3 _]]]]; apply Same; assumption|inversion E; subst; apply Same; reflexivity].
+    + inversion E; subst. apply Same; reflexivity.
+    + destruct (g_mention_hints _ _ _ _ E) as [_ [A1 [_ [A3 _]]]]. apply Same; assumption.
+    + destruct (g_bopen g) as [|[[ls ep] rem] bs]; [discriminate|]. destruct (_ && _); inversion E; subst. apply Same; reflexivity.
+    + destruct (_ && _); [|discriminate]. inversion E; subst. cbn [g_open g_closed concat app] in IH.
+      unfold defs_of in *. cbn [flat_map app]. tauto.
+    + destruct (g_bopen g) as [|[[ls ep] [|x rem]] bs]; try discriminate. destruct (_ && _); [|discriminate].
+      inversion E; subst. apply Same; reflexivity.
+    + destruct (g_mention w h g) as [gm|] eqn:Em; [|discriminate].
+      destruct (g_mention_hints _ _ _ _ Em) as [_ [A1 [_ [A3 _]]]]. apply (Def w gm); auto.
+    + destruct (g_open g) as [|o [|o2 os]] eqn:Eo; try discriminate.
+      destruct (g_bopen g) as [|[[ls ep] [|x rem]] bs]; try discriminate. inversion E; subst g2; clear E.
+      cbn [g_open g_closed concat] in IH. cbn [concat]. unfold defs_of in *. cbn [flat_map app].
+      rewrite !in_app_iff in *. tauto.
+    + destruct (g_frames g) as [|f [|f2 fs]]; try discriminate. destruct (forallb _ f); [|discriminate].
+      inversion E; subst. apply Same; reflexivity.
+    + unfold g_use in E. destruct (lookupZ w (g_hints g)); [|discriminate]. destruct (memZ w (g_closed g)); [discriminate|].
+      destruct (_ || _); inversion E; subst; apply Same; reflexivity.
+    + apply (Def w g); auto.
+Qed.
+
+(* ---------- C04_roundtrip and C04_deterministic on skeletons ---------- *)
+Section Final.
+Variable c : cfg.
+
+Definition vh (fv : Z -> Z) (x : Z * hint) : Z * hint := (fv (fst x), eff_hint (snd x)).
+Definition lh (fb : Z -> Z) (pr : bool) (l : Z * hint) : Z * hint :=
+  (fb (fst l), if pr then eff_bhint c true (snd l) else None).
+(* the same skeleton over other object identities; every hint replaced by what the printer makes of it *)
+Definition rename_skel (fv fb : Z -> Z) (ir : skel) : skel := tmapP (vh fv) (vh fv) (vh fv) fb (lh fb) ir.
+
+Definition vals_of (l : list sact) : list Z :=
+  flat_map (fun a => match a with
+                     | Ares (v, _) | Aarg (v, _) | Abarg (v, _) | Aarg_post (v, _) | Ares_post (v, _) => [v]
+                     | _ => [] end) l.
+Definition blks_of (l : list sact) : list Z :=
+  flat_map (fun a => match a with
+                     | Asucc b => [b] | Alabel (b, _) _ => [b] | Arbegin ls _ => map fst ls
+                     | _ => [] end) l.
+
+Definition skel_iso (ir ir' : skel) : Prop :=
+  exists fv fb,
+    (forall x y, In x (vals_of (sched ir)) -> In y (vals_of (sched ir)) -> fv x = fv y -> x = y) /\
+    (forall x y, In x (blks_of (sched ir)) -> In y (blks_of (sched ir)) -> fb x = fb y -> x = y) /\
+    ir' = rename_skel fv fb ir.
+
+Lemma eff_hint_idem : forall h, eff_hint (eff_hint h) = eff_hint h.
+Proof. intros [[|x t]|]; reflexivity. Qed.
+
+Lemma NoDup_snd_inj : forall (r : list (Z * Z)) v w i, NoDup (map snd r) -> In (v, i) r -> In (w, i) r -> v = w.
+Proof.
+  induction r as [|[a b] r IH]; cbn; intros v w i N H1 H2; [contradiction|].
+  inversion N as [|? ? N1 N2]; subst.
+  destruct H1 as [H1|H1], H2 as [H2|H2].
+  - congruence.
+  - inversion H1; subst. exfalso. apply N1. apply (in_map snd) in H2. exact H2.
+  - inversion H2; subst. exfalso. apply N1. apply (in_map snd) in H1. exact H1.
+  - eapply IH; eauto.
+Qed.
+Lemma rho_inj : forall (r : list (Z * Z)) x y, NoDup (map snd r) ->
+  lookupZ x r <> None -> lookupZ y r <> None -> rho r x = rho r y -> x = y.
+Proof.
+  intros r x y N Hx Hy E. unfold rho in E.
+  destruct (lookupZ x r) as [i|] eqn:Ex; [|congruence]. destruct (lookupZ y r) as [j|] eqn:Ey; [|congruence]. subst j.
+  apply lookupZ_In in Ex. apply lookupZ_In in Ey. eapply NoDup_snd_inj; eauto.
+Qed.
+
+Lemma forallb_names_app : forall a b, forallb lexable (names_of_acts (a ++ b)) =
+  forallb lexable (names_of_acts a) && forallb lexable (names_of_acts b).
+Proof.
+  induction a as [|x a IH]; intro b; [reflexivity|]. cbn [app names_of_acts]. rewrite !forallb_app. rewrite IH.
+  rewrite andb_assoc. reflexivity.
+Qed.
+
+Lemma eff_bhint_idem : forall u h, eff_bhint c true (eff_bhint c u h) = eff_bhint c u h.
+Proof.
+  intros u h. remember (eff_bhint c u h) as x eqn:Ex. unfold eff_bhint in Ex.
+  destruct u; [|subst; reflexivity].
+  destruct (eff_hint h) as [hs|] eqn:E; [|subst; reflexivity].
+  destruct (fx_block_default c && is_default hs) eqn:E2; [subst; reflexivity|]. subst x.
+  destruct h as [[|y t]|]; cbn in E; inversion E; subst.
+  unfold eff_bhint. cbn [eff_hint]. rewrite E2. reflexivity.
+Qed.
+
+Lemma nth_error_labsP : forall {L L' : Type} (fl : bool -> L -> L') ep (ls : list L) j,
+  nth_error (labsP fl ep ls) j = option_map (fl (if j =? 0 then ep else true)) (nth_error ls j).
+Proof.
+  intros L L' fl ep ls j. destruct ls as [|l0 rest]; [destruct j; reflexivity|].
+  destruct j as [|j]; [reflexivity|]. cbn. rewrite nth_error_map. reflexivity.
+Qed.
+
+Theorem roundtrip : forall ir,
+  hints_ok c (sched ir) -> well_scoped c ir = true ->
+  exists ir', parse_names c (print_names c ir) = Ok ir' /\ skel_iso ir ir' /\
+              print_names c ir' = print_names c ir.
+Proof.
+  intros ir Hh Hws. unfold well_scoped, ws in Hws.
+  set (l := sched ir) in *.
+  destruct (ws_run c l g0) as [gf|] eqn:Hrun; [|discriminate].
+  unfold ws_final in Hws. destruct (g_pend gf) eqn:Hpend; [|discriminate].
+  destruct (g_bopen gf) eqn:Hbopen; [|discriminate]. rewrite forallb_forall in Hws.
+  set (pf := runP c l pst0). set (nm := name_of pf). set (bnm := bname_of pf).
+  destruct (roundtrip_schedule c l gf Hh Hrun Hpend) as [q [r [rb [HQ [Hfwd IQ]]]]]. fold pf nm bnm in HQ, IQ.
+  pose proof (run_facts c l g0 gf (GB_0) Hrun) as Facts.
+  pose proof (runP_PInv c l pst0 g0 gf Hh GInv_g0 PInv_0 Hrun) as PI. fold pf in PI.
+  pose proof (runP_BInvP c l pst0 g0 gf Hh (BInvP_0 c) Hrun) as BI. fold pf in BI.
+  pose proof (lab_facts c l pst0 g0 gf Hh (BInvP_0 c) Hrun) as LF. fold pf in LF.
+  pose proof (ws_run_inv c l g0 gf GInv_g0 Hrun) as GI.
+  set (Dv := fun v => lookupZ v r <> None). set (Db := fun b => lookupZ b rb <> None).
+  (* coverage *)
+  assert (CovV : forall v, lookupZ v (g_hints gf) <> None -> Dv v).
+  { intros v Hv. destruct (lookupZ v (g_hints gf)) as [x|] eqn:E; [|congruence].
+    apply lookupZ_In in E. specialize (Hws _ E). cbn in Hws. apply orb_true_iff in Hws.
+    apply (iq_dom _ _ _ _ _ _ IQ). destruct Hws as [X|X]; apply memZ_In in X; tauto. }
+  assert (CovB : forall b, In b (g_bseen gf) -> Db b).
+  { intros b Hb. destruct (iq_bcover _ _ _ _ _ _ IQ b Hb) as [X|[e [X _]]]; [exact X|]. rewrite Hbopen in X. contradiction. }
+  assert (VH : forall v x, lookupZ v (g_hints gf) = Some x -> val_hint c (nm v) = x).
+  { intros v x E. pose proof (pi_shape _ _ _ PI v) as S. rewrite E in S. destruct x as [hs|].
+    - destruct S as [G [k Ek]]. unfold nm. rewrite Ek. apply val_hint_render. exact G.
+    - destruct S as [k Ek]. unfold nm. rewrite Ek. apply val_hint_dec. }
+  assert (LexV : forall v, lookupZ v (g_hints gf) <> None -> lexable (nm v) = true).
+  { intros v Hv. pose proof (pi_shape _ _ _ PI v) as S. destruct (lookupZ v (g_hints gf)) as [[hs|]|]; [| |congruence].
+    - destruct S as [G [k Ek]]. unfold nm. rewrite Ek. apply good_lexable_render. exact G.
+    - destruct S as [k Ek]. unfold nm. rewrite Ek. apply lexable_dec. }
+  assert (LexB : forall b, In b (g_bseen gf) -> lexable (bnm b) = true).
+  { intros b Hb. pose proof (bp_seen _ _ _ BI b Hb) as X. destruct (lookupZ b (p_blks pf)) as [n|] eqn:E; [|congruence].
+    unfold bnm, bname_of. rewrite E. apply (bp_lex _ _ _ BI b n E). }
+  assert (Inj : forall x y, Dv x -> Dv y -> rho r x = rho r y -> x = y).
+  { intros x y Hx Hy. apply rho_inj; try assumption. pose proof (iq_inj _ _ _ _ _ _ IQ) as N. apply NoDup_app_remove_r in N. exact N. }
+  assert (InjB : forall x y, Db x -> Db y -> rho rb x = rho rb y -> x = y).
+  { intros x y Hx Hy. apply rho_inj; try assumption. pose proof (iq_inj _ _ _ _ _ _ IQ) as N. apply NoDup_app_remove_l in N. exact N. }
+  (* every defined value has a defining act; every printed value is defined *)
+  assert (DefAll : forall v, lookupZ v (g_hints gf) <> None -> In v (defs_of l)).
+  { intros v Hv. destruct (lookupZ v (g_hints gf)) as [x|] eqn:E; [|congruence].
+    apply lookupZ_In in E. specialize (Hws _ E). cbn in Hws. apply orb_true_iff in Hws.
+    destruct (defs_cover c l g0 gf Hrun v) as [X|[X|X]]; [destruct Hws as [X|X]; apply memZ_In in X; tauto|cbn in X; contradiction|contradiction|exact X]. }
+  assert (DefsIn : defs_in Dv l).
+  { unfold defs_in. rewrite Forall_forall in Facts |- *. intros a Ha. specialize (Facts a Ha).
+    destruct a as [[v h]|[v h]| |[v h]|b|ls ep|[b h] pr|[v h]| | |[v h]|[v h]]; cbn in *; try exact I.
+    - apply CovV. congruence.
+    - apply CovV. exact Facts. }
+  (* 1. the text parses *)
+  set (outs := qouts c nm bnm r rb l) in *.
+  set (T := hint_table outs).
+  set (ir1 := tmap (fill_hint T) (fun s : Z => s) (fun l0 : Z * hint => l0) (tmapP (rv c nm r) (ra r) (rv c nm r) (rho rb) (rl c bnm rb) ir)).
+  assert (Parse : parse_names c (print_names c ir) = Ok ir1).
+  { unfold parse_names, print_names. fold l pf. rewrite sched_print_names. fold nm bnm l.
+    assert (LxG : forall l0, Forall (act_fact c gf) l0 -> forallb lexable (names_of_acts (map (name_act nm bnm) l0)) = true).
+    { intros l0 F0. induction F0 as [|a l' Fa _ IHl]; [reflexivity|].
+      cbn [map]. change (name_act nm bnm a :: map (name_act nm bnm) l') with ([name_act nm bnm a] ++ map (name_act nm bnm) l').
+      rewrite forallb_names_app. rewrite IHl. rewrite andb_true_r.
+      destruct a as [[v h]|[v h]| |[v h]|b|ls ep|[b h] pr|[v h]| | |[v h]|[v h]]; cbn in *; try reflexivity.
+      - rewrite LexV by congruence. reflexivity.
+      - rewrite LexV by congruence. reflexivity.
+      - rewrite LexB by exact Fa. reflexivity.
+      - destruct pr; [|reflexivity]. cbn. rewrite LexB by exact Fa. reflexivity.
+      - rewrite LexV by congruence. reflexivity. }
+    pose proof (LxG l Facts) as Lx.
+    rewrite Lx. cbn [negb]. rewrite HQ. rewrite Hfwd.
+    rewrite name_op_tmapP.
+    change (tmapP (nfv pf) (nfv pf) (nfv pf) (bname_of pf) (name_block_lab pf) ir)
+      with (tmapP (fun v : Z * hint => nm (fst v)) (fun v => nm (fst v)) (fun v => nm (fst v)) bnm
+                  (fun pr (l0 : Z * hint) => if pr then Some (bnm (fst l0)) else None) ir).
+    rewrite <- (app_nil_r outs) at 1. unfold outs at 1. unfold l at 1. rewrite (refill_ok c nm bnm r rb ir []). reflexivity. }
+  (* 2. the parsed IR is the renamed one *)
+  assert (Iso : ir1 = rename_skel (rho r) (rho rb) ir).
+  { unfold ir1, rename_skel. rewrite tmap_tmapP. rewrite tmapP_tmapP. apply tmapP_ext.
+    intros a Ha Pa. fold l in Ha. rewrite Forall_forall in Facts, LF. specialize (Facts a Ha). specialize (LF a Ha).
+    assert (FillDef : forall v h, lookupZ v (g_hints gf) = Some (eff_hint h) ->
+              fill_hint T (rv c nm r (v, h)) = vh (rho r) (v, h)).
+    { intros v h E. unfold rv, vh. cbn [fst snd]. rewrite (VH v _ E). unfold fill_hint. cbn [fst snd].
+      destruct (eff_hint h) as [hs|] eqn:Eh; [reflexivity|].
+      unfold T, outs. rewrite (table_none c nm bnm r rb Dv Inj l v DefsIn); [reflexivity|apply CovV; congruence|].
+      rewrite (VH v _ E). reflexivity. }
+    assert (FillUse : forall v h, lookupZ v (g_hints gf) = Some (eff_hint h) ->
+              fill_hint T (ra r (v, h)) = vh (rho r) (v, h)).
+    { intros v h E. unfold ra, vh, fill_hint. cbn [fst snd].
+      destruct (eff_hint h) as [hs|] eqn:Eh.
+      - unfold T, outs. rewrite (table_def c nm bnm r rb Dv Inj l v hs DefsIn); [reflexivity|apply CovV; congruence|apply DefAll; congruence|].
+        rewrite (VH v _ E). reflexivity.
+      - unfold T, outs. rewrite (table_none c nm bnm r rb Dv Inj l v DefsIn); [reflexivity|apply CovV; congruence|].
+        rewrite (VH v _ E). reflexivity. }
+    destruct a as [[v h]|[v h]| |[v h]|b|ls ep|[b h] pr|[v h]| | |[v h]|[v h]]; cbn [amapP act_fact lab_fact primary] in *; try contradiction.
+    - f_equal. apply FillDef. exact Facts.
+    - f_equal. apply FillUse. exact Facts.
+    - reflexivity.
+    - f_equal. unfold rl, lh. cbn [fst snd]. destruct pr; [|reflexivity]. f_equal. apply LF. reflexivity.
+    - f_equal. apply FillDef. exact Facts. }
+  (* 3. the parsed IR prints the same names *)
+  set (ir' := rename_skel (rho r) (rho rb) ir) in *.
+  set (AM := amapP (vh (rho r)) (vh (rho r)) (vh (rho r)) (rho rb) (lh (rho rb))).
+  assert (Sch : sched ir' = map AM l) by (unfold ir', rename_skel; apply sched_tmapP).
+  assert (EqvG : forall l0, Forall (act_fact c gf) l0 -> Forall (act_hints_ok c) l0 ->
+            Forall2 (act_eqv c (rho r) (rho rb) Dv Db) l0 (map AM l0)).
+  { intros l0 F0 H0. induction F0 as [|a l' Fa _ IHl]; [constructor|]. inversion H0 as [|? ? Ha Hl']; subst.
+    cbn [map]. constructor; [|apply IHl; exact Hl'].
+    destruct a as [[v h]|[v h]| |[v h]|b|ls ep|[b h] pr|[v h]| | |[v h]|[v h]]; unfold AM at 1; cbn [amapP vh lh fst snd act_fact] in *.
+    - apply AE_res; cbn [fst snd]; [apply CovV; congruence|symmetry; apply eff_hint_idem].
+    - apply AE_pre. intro Efx. cbn [fst snd]. split; [apply CovV; rewrite (Fa Efx); discriminate|symmetry; apply eff_hint_idem].
+    - constructor.
+    - apply AE_arg; cbn [fst snd]; [apply CovV; congruence|symmetry; apply eff_hint_idem].
+    - apply AE_succ. apply CovB. exact Fa.
+    - apply AE_rbegin.
+      + destruct ls as [|l0 rest]; [constructor|]. cbn [labsP]. constructor.
+        * split; [reflexivity|apply CovB; apply Fa; now left].
+        * assert (G : forall rest0, (forall x, In x rest0 -> In (fst x) (g_bseen gf)) ->
+                    Forall2 (fun l1 l2 : Z * hint => fst l2 = rho rb (fst l1) /\ Db (fst l1)) rest0 (map (lh (rho rb) true) rest0)).
+          { induction rest0 as [|x rest0 IHr]; intro Hx; [constructor|]. cbn [map]. constructor.
+            - split; [reflexivity|apply CovB; apply Hx; now left].
+            - apply IHr. intros y Hy. apply Hx. now right. }
+          apply G. intros x Hx. apply Fa. now right.
+      + intros j l1 l2 H1 H2. rewrite nth_error_labsP in H2. rewrite H1 in H2. cbn in H2. inversion H2; subst l2; clear H2.
+        unfold lh. cbn [snd].
+        destruct (if j =? 0 then ep else true) eqn:Epr.
+        * rewrite (use_hint_printed c j ep Epr). symmetry. apply eff_bhint_idem.
+        * destruct j as [|j]; [|discriminate]. cbn in Epr. subst ep.
+          cbn in Ha. destruct Ha as [_ Ha].
+          unfold use_hint_at. cbn. rewrite andb_true_r.
+          destruct (fx_entry_hint c) eqn:Efx; cbn; [reflexivity|].
+          destruct ls as [|l0 rest]; [discriminate|]. cbn in H1. inversion H1; subst l0.
+          specialize (Ha eq_refl eq_refl). cbn in Ha. unfold eff_bhint. rewrite Ha. reflexivity.
+    - apply AE_label; cbn [fst snd]; [apply CovB; exact Fa|]. intro Epr. subst pr. symmetry. apply eff_bhint_idem.
+    - apply AE_barg; cbn [fst snd]; [apply CovV; congruence|symmetry; apply eff_hint_idem].
+    - constructor.
+    - constructor.
+    - constructor.
+    - constructor. }
+  pose proof (EqvG l Facts Hh) as Eqv. rewrite <- Sch in Eqv.
+  pose proof (runP_rel c (rho r) (rho rb) Dv Db Inj InjB l (sched ir') pst0 pst0 Eqv (RelP_0 _ _ _ _)) as RP.
+  fold pf in RP. set (pf' := runP c (sched ir') pst0) in *.
+  destruct (RelP_names (rho r) (rho rb) Dv Db Inj InjB pf pf' RP) as [RN RB].
+  assert (Reprint : print_names c ir' = print_names c ir).
+  { unfold print_names. fold l pf pf'. rewrite !name_op_tmapP. unfold ir', rename_skel. rewrite tmapP_tmapP.
+    apply tmapP_ext. intros a Ha Pa. fold l in Ha. rewrite Forall_forall in Facts. specialize (Facts a Ha).
+    destruct a as [[v h]|[v h]| |[v h]|b|ls ep|[b h] pr|[v h]| | |[v h]|[v h]]; cbn [amapP act_fact primary] in *; try contradiction.
+    - f_equal. unfold nfv, vh. cbn [fst]. apply RN. apply CovV. congruence.
+    - f_equal. unfold nfv, vh. cbn [fst]. apply RN. apply CovV. congruence.
+    - f_equal. apply RB. apply CovB. exact Facts.
+    - f_equal. unfold name_block_lab, lh. cbn [fst]. destruct pr; [|reflexivity]. f_equal. apply RB. apply CovB. exact Facts.
+    - f_equal. unfold nfv, vh. cbn [fst]. apply RN. apply CovV. congruence. }
+  exists ir1. split; [exact Parse|]. rewrite Iso. fold ir'. split; [|exact Reprint].
+  exists (rho r), (rho rb). split; [|split; [|reflexivity]].
+  - assert (G : forall v, In v (vals_of l) -> Dv v).
+    { intros v Hv. unfold vals_of in Hv. apply in_flat_map in Hv. destruct Hv as [a [Ha Hv]].
+      rewrite Forall_forall in Facts. specialize (Facts a Ha).
+      destruct a as [[w h]|[w h]| |[w h]|b|ls ep|[b h] pr|[w h]| | |[w h]|[w h]]; cbn in *; try contradiction;
+        destruct Hv as [Hv|[]]; subst; apply CovV; congruence. }
+    intros x y Hx Hy. apply Inj; apply G; assumption.
+  - assert (G : forall b, In b (blks_of l) -> Db b).
+    { intros b Hb. unfold blks_of in Hb. apply in_flat_map in Hb. destruct Hb as [a [Ha Hb]].
+      rewrite Forall_forall in Facts. specialize (Facts a Ha).
+      destruct a as [[w h]|[w h]| |[w h]|b0|ls ep|[b0 h] pr|[w h]| | |[w h]|[w h]]; cbn in *; try contradiction.
+      - destruct Hb as [Hb|[]]; subst. apply CovB. exact Facts.
+      - apply in_map_iff in Hb. destruct Hb as [x [Hx1 Hx2]]. subst. apply CovB. apply Facts. exact Hx2.
+      - destruct Hb as [Hb|[]]; subst. apply CovB. exact Facts. }
+    intros x y Hx Hy. apply InjB; apply G; assumption.
+Qed.
+
+(* C04_deterministic: an injectively renamed copy (a clone) prints the same names *)
+Theorem deterministic : forall ir fv fb,
+  (forall x y, fv x = fv y -> x = y) -> (forall x y, fb x = fb y -> x = y) ->
+  print_names c (tmapP (fun x : Z * hint => (fv (fst x), snd x)) (fun x => (fv (fst x), snd x)) (fun x => (fv (fst x), snd x))
+                       fb (fun _ (l : Z * hint) => (fb (fst l), snd l)) ir) = print_names c ir.
+Proof.
+  intros ir fv fb Iv Ib.
+  set (F := fun x : Z * hint => (fv (fst x), snd x)). set (FL := fun (_ : bool) (l : Z * hint) => (fb (fst l), snd l)).
+  set (ir' := tmapP F F F fb FL ir). set (l := sched ir).
+  assert (Sch : sched ir' = map (amapP F F F fb FL) l) by (unfold ir'; apply sched_tmapP).
+  assert (EqvG : forall l0, Forall2 (act_eqv c fv fb (fun _ => True) (fun _ => True)) l0 (map (amapP F F F fb FL) l0)).
+  { induction l0 as [|a l0 IH]; [constructor|]. cbn [map]. constructor; [|exact IH].
+    destruct a as [[v h]|[v h]| |[v h]|b|ls ep|[b h] pr|[v h]| | |[v h]|[v h]]; cbn [amapP]; unfold F, FL; cbn [fst snd].
+    - apply AE_res; [exact I|reflexivity].
+    - apply AE_pre. intros _. split; [exact I|reflexivity].
+    - constructor.
+    - apply AE_arg; [exact I|reflexivity].
+    - apply AE_succ. exact I.
+    - apply AE_rbegin.
+      + destruct ls as [|l0' rest]; [constructor|]. cbn [labsP]. constructor; [split; [reflexivity|exact I]|].
+        induction rest as [|x rest IHr]; [constructor|]. cbn [map]. constructor; [split; [reflexivity|exact I]|exact IHr].
+      + intros j l1 l2 H1 H2. rewrite nth_error_labsP in H2. rewrite H1 in H2. cbn in H2. inversion H2; subst. reflexivity.
+    - apply AE_label; [exact I|intros _; reflexivity].
+    - apply AE_barg; [exact I|reflexivity].
+    - constructor.
+    - constructor.
+    - constructor.
+    - constructor. }
+  pose proof (EqvG l) as Eqv. rewrite <- Sch in Eqv.
+  assert (Iv' : forall x y : Z, True -> True -> fv x = fv y -> x = y) by (intros; auto).
+  assert (Ib' : forall x y : Z, True -> True -> fb x = fb y -> x = y) by (intros; auto).
+  pose proof (runP_rel c fv fb (fun _ => True) (fun _ => True) Iv' Ib' l (sched ir') pst0 pst0 Eqv (RelP_0 _ _ _ _)) as RP.
+  destruct (RelP_names fv fb (fun _ => True) (fun _ => True) Iv' Ib' _ _ RP) as [RN RB].
+  unfold print_names. fold l. rewrite !name_op_tmapP. unfold ir'. rewrite tmapP_tmapP.
+  apply tmapP_ext. intros a Ha Pa.
+  destruct a as [[v h]|[v h]| |[v h]|b|ls ep|[b h] pr|[v h]| | |[v h]|[v h]]; cbn [amapP primary] in *; try contradiction.
+  - f_equal. unfold nfv, F. cbn [fst]. apply RN. exact I.
+  - f_equal. unfold nfv, F. cbn [fst]. apply RN. exact I.
+  - f_equal. apply RB. exact I.
+  - f_equal. unfold name_block_lab, FL. cbn [fst]. destruct pr; [|reflexivity]. f_equal. apply RB. exact I.
+  - f_equal. unfold nfv, F. cbn [fst]. apply RN. exact I.
+Qed.
+End Final.
